@@ -59,6 +59,32 @@ func C18(r *core.Report) {
 				if lit, ok := core.Unparen(c.Args[0]).(*ast.FuncLit); ok {
 					worker = p.ByLit[lit]
 					launched = core.ObjOf(info, rs.X)
+				} else if wc, ok := core.Unparen(c.Args[0]).(*ast.CallExpr); ok {
+					// group.Go(wrap(job)): the worker is the literal the wrapper returns (a local closure or a function)
+					var wrapBody *ast.BlockStmt
+					if o := core.ObjOf(info, wc.Fun); o != nil {
+						if d := singleDef(f, o); d != nil {
+							if wl, ok := core.Unparen(d).(*ast.FuncLit); ok {
+								wrapBody = wl.Body
+							}
+						}
+						if fo, ok := o.(*types.Func); ok {
+							if wf := p.ByObj[fo.Origin()]; wf != nil {
+								wrapBody = wf.Body
+							}
+						}
+					}
+					if wrapBody != nil {
+						ast.Inspect(wrapBody, func(m ast.Node) bool {
+							if rs2, ok := m.(*ast.ReturnStmt); ok && len(rs2.Results) == 1 {
+								if il, ok := core.Unparen(rs2.Results[0]).(*ast.FuncLit); ok {
+									worker = p.ByLit[il]
+									launched = core.ObjOf(info, rs.X)
+								}
+							}
+							return true
+						})
+					}
 				}
 			}
 		}
@@ -149,12 +175,62 @@ func C18(r *core.Report) {
 	if nClose == 0 {
 		r.Violation("C18.R3", f.Key+"#close", posP(r, f.Pos()), "the result channel is never closed: when every job fails the reader's range loop relies on the error count only")
 	}
+	// R4: the function that receives from the channel - FirstSuccess itself, or a helper it hands the channel to and whose
+	// result it returns unchanged
+	cf, chC := f, ch
+	{
+		receivesHere := false
+		ast.Inspect(f.Body, func(n ast.Node) bool {
+			switch s := n.(type) {
+			case *ast.FuncLit:
+				return false
+			case *ast.RangeStmt:
+				if core.ObjOf(info, s.X) == ch {
+					receivesHere = true
+				}
+			case *ast.UnaryExpr:
+				if s.Op == token.ARROW && core.ObjOf(info, s.X) == ch {
+					receivesHere = true
+				}
+			}
+			return true
+		})
+		if !receivesHere {
+			for _, rn := range g.Returns() {
+				res := returnResults(rn)
+				if len(res) != 1 {
+					continue
+				}
+				c, ok := core.Unparen(res[0]).(*ast.CallExpr)
+				if !ok {
+					continue
+				}
+				fo := core.Callee(info, c)
+				if fo == nil {
+					continue
+				}
+				h := p.ByObj[fo.Origin()]
+				if h == nil || h.Body == nil {
+					continue
+				}
+				for ai, a := range c.Args {
+					if core.ObjOf(info, a) == ch {
+						if po := h.ParamObj(ai); po != nil {
+							cf, chC = h, po
+						}
+					}
+				}
+			}
+		}
+	}
+	ci := cf.Pkg.TypesInfo
+	cg := p.Graph(cf)
 	// R4 receives
 	var errs types.Object
-	for _, rn := range g.Returns() {
+	for _, rn := range cg.Returns() {
 		res := returnResults(rn)
-		if len(res) == 2 && !core.IsNil(info, res[1]) {
-			errs = core.ObjOf(info, res[1])
+		if len(res) == 2 && !core.IsNil(ci, res[1]) {
+			errs = core.ObjOf(ci, res[1])
 		}
 	}
 	type recvSite struct {
@@ -163,31 +239,31 @@ func C18(r *core.Report) {
 		desc string
 	}
 	var sites []recvSite
-	ast.Inspect(f.Body, func(n ast.Node) bool {
+	ast.Inspect(cf.Body, func(n ast.Node) bool {
 		switch s := n.(type) {
 		case *ast.FuncLit:
 			return false
 		case *ast.RangeStmt:
-			if core.ObjOf(info, s.X) == ch {
+			if core.ObjOf(ci, s.X) == chC {
 				var v types.Object
 				if s.Key != nil {
-					v = core.ObjOf(info, s.Key)
+					v = core.ObjOf(ci, s.Key)
 				}
 				// the body entry edge
-				for _, e := range g.Nodes {
+				for _, e := range cg.Nodes {
 					if e.Kind == core.KEdge && e.Truth && e.Loop == ast.Stmt(s) {
 						sites = append(sites, recvSite{e, v, "range over the result channel"})
 					}
 				}
 			}
 		case *ast.UnaryExpr:
-			if s.Op == token.ARROW && core.ObjOf(info, s.X) == ch {
-				nd := g.NodeOf(s.Pos())
+			if s.Op == token.ARROW && core.ObjOf(ci, s.X) == chC {
+				nd := cg.NodeOf(s.Pos())
 				var v types.Object
 				// x := <-ch
-				ast.Inspect(f.Body, func(m ast.Node) bool {
+				ast.Inspect(cf.Body, func(m ast.Node) bool {
 					if as, ok := m.(*ast.AssignStmt); ok && len(as.Rhs) == 1 && core.Unparen(as.Rhs[0]) == ast.Expr(s) {
-						v = core.ObjOf(info, as.Lhs[0])
+						v = core.ObjOf(ci, as.Lhs[0])
 					}
 					return true
 				})
@@ -199,23 +275,23 @@ func C18(r *core.Report) {
 		return true
 	})
 	if len(sites) == 0 {
-		r.Undecided("C18.R4", f.Key+"#receive", posP(r, f.Pos()), "no receive from the result channel found")
+		r.Undecided("C18.R4", cf.Key+"#receive", posP(r, cf.Pos()), "no receive from the result channel found")
 	}
 	for i, st := range sites {
-		key := fmt.Sprintf("%s#receive@%d", f.Key, i)
+		key := fmt.Sprintf("%s#receive@%d", cf.Key, i)
 		if st.val == nil || errs == nil {
-			r.Violation("C18.R4", key, posP(r, f.Pos()), st.desc+": the received outcome is discarded")
+			r.Violation("C18.R4", key, posP(r, cf.Pos()), st.desc+": the received outcome is discarded")
 			continue
 		}
 		// nodes that consume the outcome: success return under err == nil, or append of its error to errs
 		consume := map[*core.GNode]bool{}
-		for _, n := range stmtNodes(g) {
+		for _, n := range stmtNodes(cg) {
 			switch s := n.Ast.(type) {
 			case *ast.ReturnStmt:
-				if len(s.Results) == 2 && core.IsNil(info, s.Results[1]) && core.Mentions(info, s.Results[0], st.val) {
+				if len(s.Results) == 2 && core.IsNil(ci, s.Results[1]) && core.Mentions(ci, s.Results[0], st.val) {
 					okNil := false
-					for _, fc := range g.FactsAt(n) {
-						if x, eq, ok := core.NilCompare(info, fc.Expr); ok && fc.Tag == nil && fc.Unless == nil && eq == fc.Truth && core.Mentions(info, x, st.val) && strings.HasSuffix(core.ExprStr(x), ".err") {
+					for _, fc := range cg.FactsAt(n) {
+						if x, eq, ok := core.NilCompare(ci, fc.Expr); ok && fc.Tag == nil && fc.Unless == nil && eq == fc.Truth && core.Mentions(ci, x, st.val) && strings.HasSuffix(core.ExprStr(x), ".err") {
 							okNil = true
 						}
 					}
@@ -224,8 +300,8 @@ func C18(r *core.Report) {
 					}
 				}
 			case *ast.AssignStmt:
-				if len(s.Lhs) == 1 && len(s.Rhs) == 1 && core.ObjOf(info, s.Lhs[0]) == errs {
-					if c, ok := core.Unparen(s.Rhs[0]).(*ast.CallExpr); ok && core.BuiltinName(info, c) == "append" && len(c.Args) == 2 && core.ObjOf(info, c.Args[0]) == errs && core.Mentions(info, c.Args[1], st.val) {
+				if len(s.Lhs) == 1 && len(s.Rhs) == 1 && core.ObjOf(ci, s.Lhs[0]) == errs {
+					if c, ok := core.Unparen(s.Rhs[0]).(*ast.CallExpr); ok && core.BuiltinName(ci, c) == "append" && len(c.Args) == 2 && core.ObjOf(ci, c.Args[0]) == errs && core.Mentions(ci, c.Args[1], st.val) {
 						consume[n] = true
 					}
 				}
@@ -233,7 +309,7 @@ func C18(r *core.Report) {
 		}
 		// from the receive, every path to the next receive or to the exit passes a consume node
 		stopAt := func(x *core.GNode) bool {
-			if x == g.Exit {
+			if x == cg.Exit {
 				return true
 			}
 			for _, o := range sites {
@@ -243,23 +319,23 @@ func C18(r *core.Report) {
 			}
 			return false
 		}
-		path := g.PathAvoiding(st.node, stopAt, func(x *core.GNode) bool { return consume[x] })
-		r.Check(path == nil, "C18.R4", key, posP(r, f.Pos()), st.desc+": every received outcome is returned as the success or appended to the error list",
-			st.desc+": a received failure can be dropped (neither returned nor appended to the error list): when no job succeeds the error list is incomplete and an index read error can be reported as not-found", g.PathStrings(path)...)
+		path := cg.PathAvoiding(st.node, stopAt, func(x *core.GNode) bool { return consume[x] })
+		r.Check(path == nil, "C18.R4", key, posP(r, cf.Pos()), st.desc+": every received outcome is returned as the success or appended to the error list",
+			st.desc+": a received failure can be dropped (neither returned nor appended to the error list): when no job succeeds the error list is incomplete and an index read error can be reported as not-found", cg.PathStrings(path)...)
 	}
 	// every success return takes its value from a received result
-	for i, rn := range g.Returns() {
+	for i, rn := range cg.Returns() {
 		res := returnResults(rn)
-		if len(res) != 2 || !core.IsNil(info, res[1]) {
+		if len(res) != 2 || !core.IsNil(ci, res[1]) {
 			continue
 		}
 		fromRecv := false
 		for _, st := range sites {
-			if st.val != nil && core.Mentions(info, res[0], st.val) {
+			if st.val != nil && core.Mentions(ci, res[0], st.val) {
 				fromRecv = true
 			}
 		}
-		r.Check(fromRecv, "C18.R4", fmt.Sprintf("%s#success-return@%d", f.Key, i), pos(r, rn.Ast), "the success value is that of a received job outcome", "a success return yields a value that no job produced")
+		r.Check(fromRecv, "C18.R4", fmt.Sprintf("%s#success-return@%d", cf.Key, i), pos(r, rn.Ast), "the success value is that of a received job outcome", "a success return yields a value that no job produced")
 	}
 	c18Classification(r)
 	c18JobIndependence(r)
@@ -283,28 +359,60 @@ func c18Classification(r *core.Report) {
 		return
 	}
 	info := f.Pkg.TypesInfo
-	g := p.Graph(f)
-	// the All(...) edge
-	var allEdge *core.GNode
-	for _, e := range g.Nodes {
-		if e.Kind == core.KEdge && e.Truth && e.Ast != nil {
-			if c, ok := core.Unparen(e.Ast.(ast.Expr)).(*ast.CallExpr); ok && core.CalleeName(info, c) == "main.(ErrorSlice).All" && len(c.Args) == 1 {
-				// predicate literal returns errors.Is(err, ErrNotFound)
-				if lit, ok := core.Unparen(c.Args[0]).(*ast.FuncLit); ok {
-					s := core.ExprStr(lit.Body)
-					if strings.Contains(s, "errors.Is(") && strings.Contains(s, "ErrNotFound") {
-						allEdge = e
-					}
+	// the function that classifies the outcome: f itself or a helper f calls; it tests errs.All(pred) where pred (a literal
+	// or a named function) is errors.Is(_, ErrNotFound)
+	isNotFoundPred := func(e ast.Expr, in *core.Func) bool {
+		var body ast.Node
+		switch x := core.Unparen(e).(type) {
+		case *ast.FuncLit:
+			body = x.Body
+		default:
+			if fo, ok := core.ObjOf(in.Pkg.TypesInfo, x).(*types.Func); ok {
+				if pf := p.ByObj[fo.Origin()]; pf != nil && pf.Body != nil {
+					body = pf.Body
 				}
 			}
 		}
+		if body == nil {
+			return false
+		}
+		s := core.ExprStr(body)
+		return strings.Contains(s, "errors.Is(") && strings.Contains(s, "ErrNotFound")
 	}
-	if allEdge == nil {
+	cands := []*core.Func{f}
+	for _, cs := range p.Calls(f) {
+		if cs.In == f && len(cs.Targets) == 1 && cs.Targets[0].Pkg == f.Pkg {
+			cands = append(cands, cs.Targets[0])
+		}
+	}
+	var cf *core.Func
+	allFact := func(fn *core.Func, at *core.GNode) bool {
+		fg := p.Graph(fn)
+		for _, fc := range fg.FactsAt(at) {
+			if c, ok := core.Unparen(fc.Expr).(*ast.CallExpr); ok && fc.Truth && fc.Tag == nil && core.CalleeName(fn.Pkg.TypesInfo, c) == "main.(ErrorSlice).All" && len(c.Args) == 1 && isNotFoundPred(c.Args[0], fn) {
+				return true
+			}
+		}
+		return false
+	}
+	for _, c := range cands {
+		found := false
+		for _, cc := range core.CallsIn(c.Body, false) {
+			if core.CalleeName(c.Pkg.TypesInfo, cc) == "main.(ErrorSlice).All" && len(cc.Args) == 1 && isNotFoundPred(cc.Args[0], c) {
+				found = true
+			}
+		}
+		if found {
+			cf = c
+		}
+	}
+	if cf == nil {
 		r.Violation(rule, f.Key+"#all-not-found-test", posP(r, f.Pos()), "the outcome is not classified by errs.All(errors.Is(_, ErrNotFound))")
 		return
 	}
-	r.OK(rule, f.Key+"#all-not-found-test", pos(r, allEdge.Ast), "not-found is decided by errs.All(errors.Is(_, ErrNotFound))")
-	// after the search call, every return of ErrNotFound is dominated by the All edge
+	r.OK(rule, f.Key+"#all-not-found-test", posP(r, cf.Pos()), "not-found is decided by errs.All(errors.Is(_, ErrNotFound)) in "+cf.Key)
+	g := p.Graph(f)
+	// after the search call, every return of ErrNotFound (in f, and in the classifying helper) is reached under the All test
 	var searchNode *core.GNode
 	for _, n := range stmtNodes(g) {
 		for _, c := range nodeCalls(n) {
@@ -318,22 +426,36 @@ func c18Classification(r *core.Report) {
 		r.Undecided(rule, f.Key+"#search-call", posP(r, f.Pos()), "search call not found")
 		return
 	}
-	for i, rn := range g.Returns() {
-		if !g.Dominates(searchNode, rn) {
-			continue
-		}
-		res := returnResults(rn)
-		if len(res) != 2 {
-			continue
-		}
-		isNF := core.ExprStr(res[1]) == "ErrNotFound"
-		if isNF {
-			r.Check(g.Dominates(allEdge, rn), rule, fmt.Sprintf("%s#not-found-return@%d", f.Key, i), pos(r, rn.Ast), "not-found is answered only when every job error is not-found",
-				"not-found is answered although some epoch search failed with another error (e.g. an index read error)")
+	nNF := 0
+	checkNF := func(fn *core.Func, after *core.GNode) {
+		fg := p.Graph(fn)
+		for i, rn := range fg.Returns() {
+			if after != nil && !fg.Dominates(after, rn) {
+				continue
+			}
+			isNF := false
+			for _, e := range returnResults(rn) {
+				if core.ExprStr(e) == "ErrNotFound" {
+					isNF = true
+				}
+			}
+			if isNF {
+				nNF++
+				r.Check(allFact(fn, rn), rule, fmt.Sprintf("%s#not-found-return@%d", fn.Key, i), pos(r, rn.Ast), "not-found is answered only when every job error is not-found",
+					"not-found is answered although some epoch search failed with another error (e.g. an index read error)")
+			}
 		}
 	}
+	checkNF(f, searchNode)
+	if cf != f {
+		checkNF(cf, nil)
+	}
+	if nNF == 0 {
+		r.Undecided(rule, f.Key+"#not-found-return", posP(r, f.Pos()), "no return of ErrNotFound found after the search")
+	}
 	// the per-epoch job: an error from bucket.Has is returned as an error (not as not-found)
-	for _, lit := range f.Lits {
+	jobFns, _ := epochJobFuncs(p, f)
+	for _, lit := range jobFns {
 		li := lit.Pkg.TypesInfo
 		lg := p.Graph(lit)
 		for _, n := range stmtNodes(lg) {
@@ -378,12 +500,12 @@ func c18JobIndependence(r *core.Report) {
 	}
 	info := f.Pkg.TypesInfo
 	n := 0
-	for _, lit := range f.Lits {
-		// the job literals are the ones returning (uint64, error)
-		if lit.Type.Results == nil || len(lit.Type.Results.List) != 2 {
-			continue
-		}
-		if t := info.TypeOf(lit.Type.Results.List[1].Type); t == nil || !core.IsErrorType(t) {
+	jobFns, sharedCaptures := epochJobFuncs(p, f)
+	for _, lit := range jobFns {
+		if lit.Lit == nil || !sharedCaptures[lit] {
+			// a job built by a constructor or a named function captures per-job state only; nothing of f is shared
+			n++
+			r.OK(rule, lit.Key+"#job-verdict-independent-of-other-jobs", posP(r, lit.Pos()), "the job captures no variable of the search function (per-job state only)")
 			continue
 		}
 		n++
@@ -565,17 +687,12 @@ func hitConfirmedByIndex(r *core.Report, rule string) {
 	if f == nil {
 		return
 	}
-	info := f.Pkg.TypesInfo
 	sig := f.ParamByName("sig")
 	n := 0
-	for _, lit := range f.Lits {
-		if lit.Type.Results == nil || len(lit.Type.Results.List) != 2 {
-			continue
-		}
-		if t := info.TypeOf(lit.Type.Results.List[1].Type); t == nil || !core.IsErrorType(t) {
-			continue
-		}
-		g := p.Graph(lit)
+	var check func(fn *core.Func, sigs map[types.Object]bool, depth int) (int, string, ast.Node)
+	check = func(fn *core.Func, sigs map[types.Object]bool, depth int) (int, string, ast.Node) {
+		info := fn.Pkg.TypesInfo
+		g := p.Graph(fn)
 		// the confirming calls and the error variables they define
 		confirm := map[types.Object]*core.GNode{}
 		for _, node := range g.Nodes {
@@ -590,20 +707,22 @@ func hitConfirmedByIndex(r *core.Report, rule string) {
 			if !ok || !strings.HasSuffix(core.CalleeName(info, c), "(*Epoch).FindCidFromSignature") {
 				continue
 			}
-			if sig != nil && (len(c.Args) < 2 || core.ObjOf(info, c.Args[1]) != types.Object(sig)) {
+			if len(c.Args) < 2 || !sigs[core.ObjOf(info, c.Args[1])] {
 				continue
 			}
 			if eo := core.ObjOf(info, as.Lhs[len(as.Lhs)-1]); eo != nil {
 				confirm[eo] = node
 			}
 		}
-		for i, rn := range g.Returns() {
-			nilErr, dec := isNilErrReturn(lit, rn)
+		count := 0
+		for _, rn := range g.Returns() {
+			nilErr, dec := isNilErrReturn(fn, rn)
 			if dec && !nilErr {
 				continue
 			}
+			res := returnResults(rn)
 			// `if ctx.Err() != nil { return 0, ctx.Err() }`: the returned expression is the one just tested non-nil
-			if res := returnResults(rn); len(res) == 2 && !dec {
+			if len(res) == 2 && !dec {
 				isErr := false
 				for _, fc := range g.FactsAt(rn) {
 					if x, isNil, isCmp := core.NilCompare(info, fc.Expr); isCmp && isNil != fc.Truth && core.ExprStr(x) == core.ExprStr(res[1]) {
@@ -614,7 +733,32 @@ func hitConfirmedByIndex(r *core.Report, rule string) {
 					continue
 				}
 			}
-			n++
+			// delegation: return helper(..., sig, ...)
+			if len(res) == 1 && depth < 3 {
+				if c, ok := core.Unparen(res[0]).(*ast.CallExpr); ok {
+					if fnObj := core.Callee(info, c); fnObj != nil {
+						if callee := p.ByObj[fnObj.Origin()]; callee != nil && callee.Body != nil {
+							sub := map[types.Object]bool{}
+							for ai, a := range c.Args {
+								if sigs[core.ObjOf(info, a)] {
+									if po := callee.ParamObj(ai); po != nil {
+										sub[po] = true
+									}
+								}
+							}
+							if len(sub) > 0 {
+								k, why, at := check(callee, sub, depth+1)
+								count += k
+								if why != "" {
+									return count, why, at
+								}
+								continue
+							}
+						}
+					}
+				}
+			}
+			count++
 			ok := false
 			for _, fc := range g.FactsAt(rn) {
 				if x, isNil, isCmp := core.NilCompare(info, fc.Expr); isCmp && isNil == fc.Truth {
@@ -623,11 +767,123 @@ func hitConfirmedByIndex(r *core.Report, rule string) {
 					}
 				}
 			}
-			r.Check(ok, rule, fmt.Sprintf("%s#hit@%d-confirmed-by-signature-index", lit.Key, i), pos(r, rn.Ast), "the job reports a hit only after the epoch's signature index returned the signature",
-				"a per-epoch job reports a hit without the nil outcome of FindCidFromSignature for the searched signature: a false positive of the sig-exists filter in another epoch wins the search and the transaction is answered as not found")
+			if !ok {
+				return count, "the success return at " + p.Rel(rn.Ast.Pos()) + " is not reached under the nil outcome of FindCidFromSignature for the searched signature", rn.Ast
+			}
+		}
+		return count, "", nil
+	}
+	// the job functions: whatever is handed to <JobGroup>.Add in f
+	info := f.Pkg.TypesInfo
+	for _, w := range f.AllWithLits() {
+		for _, c := range core.CallsIn(w.Body, false) {
+			if !strings.HasSuffix(core.CalleeName(info, c), "JobGroup).Add") || len(c.Args) != 1 {
+				continue
+			}
+			sigs := map[types.Object]bool{}
+			if sig != nil {
+				sigs[sig] = true
+			}
+			var jobs []*core.Func
+			var jobSigs []map[types.Object]bool
+			switch a := core.Unparen(c.Args[0]).(type) {
+			case *ast.FuncLit:
+				jobs, jobSigs = append(jobs, p.ByLit[a]), append(jobSigs, sigs)
+			case *ast.CallExpr:
+				// a constructor returning the job closure
+				if fnObj := core.Callee(info, a); fnObj != nil {
+					if mk := p.ByObj[fnObj.Origin()]; mk != nil && mk.Body != nil {
+						sub := map[types.Object]bool{}
+						for ai, arg := range a.Args {
+							if sigs[core.ObjOf(info, arg)] {
+								if po := mk.ParamObj(ai); po != nil {
+									sub[po] = true
+								}
+							}
+						}
+						for _, l := range mk.Lits {
+							jobs, jobSigs = append(jobs, l), append(jobSigs, sub)
+						}
+					}
+				}
+			default:
+				if fnObj, ok := core.ObjOf(info, a).(*types.Func); ok {
+					if j := p.ByObj[fnObj.Origin()]; j != nil {
+						jobs, jobSigs = append(jobs, j), append(jobSigs, sigs)
+					}
+				}
+			}
+			for ji, job := range jobs {
+				if job == nil {
+					continue
+				}
+				k, why, at := check(job, jobSigs[ji], 0)
+				n += k
+				key := fmt.Sprintf("%s#job-hit-confirmed-by-signature-index", job.Key)
+				if why == "" && k > 0 {
+					r.OK(rule, key, posP(r, job.Pos()), "the job reports a hit only after the epoch's signature index returned the signature")
+				} else if why != "" {
+					r.Violation(rule, key, pos(r, at), "a per-epoch job reports a hit without confirmation: "+why+" - a false positive of the sig-exists filter in another epoch wins the search and the transaction is answered as not found")
+				}
+			}
 		}
 	}
 	if n == 0 {
 		r.Undecided(rule, f.Key+"#job-success-returns", posP(r, f.Pos()), "no success return of a per-epoch job found")
 	}
+}
+
+// epochJobFuncs returns the functions that make up the per-epoch search jobs of findEpochNumberFromSignature: the
+// literals handed to <JobGroup>.Add, the literals returned by a constructor handed to Add, named functions used as jobs,
+// and the functions those delegate to with `return helper(...)`. shared[fn] tells whether fn's enclosing function is f
+// itself (its captured variables are then shared by all jobs).
+func epochJobFuncs(p *core.Prog, f *core.Func) (jobs []*core.Func, shared map[*core.Func]bool) {
+	info := f.Pkg.TypesInfo
+	shared = map[*core.Func]bool{}
+	seen := map[*core.Func]bool{}
+	var add func(fn *core.Func, sh bool, depth int)
+	add = func(fn *core.Func, sh bool, depth int) {
+		if fn == nil || fn.Body == nil || seen[fn] || depth > 3 {
+			return
+		}
+		seen[fn] = true
+		jobs = append(jobs, fn)
+		shared[fn] = sh
+		g := p.Graph(fn)
+		for _, rn := range g.Returns() {
+			res := returnResults(rn)
+			if len(res) != 1 {
+				continue
+			}
+			if c, ok := core.Unparen(res[0]).(*ast.CallExpr); ok {
+				if fo := core.Callee(fn.Pkg.TypesInfo, c); fo != nil {
+					add(p.ByObj[fo.Origin()], false, depth+1)
+				}
+			}
+		}
+	}
+	for _, w := range f.AllWithLits() {
+		for _, c := range core.CallsIn(w.Body, false) {
+			if !strings.HasSuffix(core.CalleeName(info, c), "JobGroup).Add") || len(c.Args) != 1 {
+				continue
+			}
+			switch a := core.Unparen(c.Args[0]).(type) {
+			case *ast.FuncLit:
+				add(p.ByLit[a], true, 0)
+			case *ast.CallExpr:
+				if fo := core.Callee(info, a); fo != nil {
+					if mk := p.ByObj[fo.Origin()]; mk != nil {
+						for _, l := range mk.Lits {
+							add(l, false, 0)
+						}
+					}
+				}
+			default:
+				if fo, ok := core.ObjOf(info, a).(*types.Func); ok {
+					add(p.ByObj[fo.Origin()], false, 0)
+				}
+			}
+		}
+	}
+	return
 }
